@@ -695,6 +695,14 @@ func (e *Env) call(n *ast.CallExpr) Val {
 			return Val{Sort: "Str", Term: name}
 		}
 		return Val{Sort: "Str", Term: fmt.Sprintf("(%s %s)", name, strings.Join(terms, " "))}
+	case "rangeindexof": // rangeindexof(k): the position of key k in the enumeration of the function's store iterator
+		need(1)
+		inv, ok := e.vars["rangeinv"]
+		if !ok {
+			g.fail("rangeindexof() without a store iterator in scope")
+		}
+		k := e.tr(args[0])
+		return Val{Sort: "Int", Term: fmt.Sprintf("(%s %s)", inv.Term, k.Term)}
 	case "rangekey": // rangekey(j): the j-th key of the map enumeration of the enclosing map-range loop
 		need(1)
 		en, ok := e.vars["rangekeys"]
